@@ -578,7 +578,13 @@ def _renormalise(vs):
 @st.composite
 def values_near(draw, T, existing_paths=False):
     """-> (label, value spec)"""
-    mode = draw(st.sampled_from(["other_type", "mutate", "mutate", "confuse", "confuse_top"]))
+    mode = draw(st.sampled_from(["other_type", "mutate", "mutate", "confuse", "confuse_top",
+                                 "bytes_for_collection"]))
+    if mode == "bytes_for_collection":
+        # bytes is a Sequence (of ints) that cannot hold anything else
+        if T[0] in ("list", "tuplevar", "set", "frozenset", "Sequence", "Multi", "tuple"):
+            return "bytes_for_collection", ["bytes", draw(st.sampled_from(["00", "01", "0001", "6162", ""]))]
+        mode = "other_type"
     if mode == "other_type":
         other = draw(types(max_depth=min(2, max(1, depth(T)))))
         return "other_type", draw(values_of(other, existing_paths=existing_paths))
